@@ -76,6 +76,14 @@ def _lin(t):
     return R_
   if t.op == 'call' and t.args[0].op == 'builtin' and t.args[0].args[0] == 'abs':
     return R_
+  if t.op == 'sub' and is_const(t.args[1]) and cval(t.args[1]) in (0, 1) and t.args[0].op == 'attr' and t.args[0].args[1] == 'shape' and \
+      t.args[0].args[0].op == 'sym' and str(t.args[0].args[0].args[-1]) in ('eigvecs', 'preconditioner'):
+    # eigvecs is (d, r); the packed preconditioner is (d, r + 2) (the buffer shape is checked separately)
+    if cval(t.args[1]) == 0:
+      return D_
+    return R_ if str(t.args[0].args[0].args[-1]) == 'eigvecs' else R_ + 2
+  if fn_name(t) == '_precond_dim':
+    return R_ + 2                 # in the compressed regime (asserted by both functions, decided by R2)
   if t.op == 'bin' and t.args[0] in ('+', '-'):
     a, b = _lin(t.args[1]), _lin(t.args[2])
     return a + b if t.args[0] == '+' else a - b
@@ -178,9 +186,15 @@ def slot_table(ctx):
   names_r = ['eigvecs', 'eigvals', 'inverted_eigvals', 'const', 'tail', 'has_zeros']
   for nm, comp in zip(order, r.args):
     c = strip_casts(comp)
-    if not (c.op == 'sub' and c.args[0].op == 'sym' and c.args[0].args[-1] == 'preconditioner'):
+    is_p = lambda t_: t_.op == 'sym' and t_.args[-1] == 'preconditioner'
+    if c.op == 'sub' and is_p(c.args[0]):
+      reads[nm] = _region(c.args[1])
+    elif c.op == 'sub' and c.args[0].op == 'sub' and is_p(c.args[0].args[0]) and c.args[0].args[1].op == 'tuple' and len(c.args[0].args[1].args) == 2 and \
+        c.args[0].args[1].args[0].op == 'slice' and all(is_const(x, None) for x in c.args[0].args[1].args[0].args) and c.args[0].args[1].args[1].op != 'slice':
+      # a whole column first, then rows of it: p[:, k][rows]
+      reads[nm] = (_interval(c.args[1], D_), _interval(c.args[0].args[1].args[1], R_ + 2))
+    else:
       raise AnalysisError(f'_fd_low_rank_unpack: component for {nm} is not an index into the preconditioner: {show(comp, maxdepth=3)}')
-    reads[nm] = _region(c.args[1])
   for nm, rn in zip(order, names_r):
     ws = writes.get(nm, [])
     ok = len(ws) == 1 and _same(ws[0], reads[nm])
